@@ -462,7 +462,7 @@ fn fold(t: &RecorderTrace, o: Option<&RecOutcome>, findings: Vec<Finding>, strea
         d.str(cls);
         d.str(&o.err_class);
         if let Ok((m, p, x)) = &o.result {
-            d.str(&mask_pid(&format!("{:?}{:?}{}", m, p, x)));
+            d.str(&crate::exec::mask_scratch(&format!("{:?}{:?}{}", m, p, x)));
         }
         sh.str(cls);
         sh.str(&format!(
@@ -541,27 +541,6 @@ fn fold(t: &RecorderTrace, o: Option<&RecOutcome>, findings: Vec<Finding>, strea
         }
     }
     own
-}
-
-/// scratch paths contain the worker's pid; keep it out of the event-log digest
-fn mask_pid(s: &str) -> String {
-    let mut out = String::new();
-    let mut rest = s;
-    while let Some(i) = rest.find("scsim-") {
-        out.push_str(&rest[..i + 6]);
-        rest = &rest[i + 6..];
-        let digits = rest.chars().take_while(|c| c.is_ascii_digit()).count();
-        out.push('#');
-        rest = &rest[digits..];
-        // and the worker's scratch tag: "/<tag>/"
-        if let Some(r2) = rest.strip_prefix('/') {
-            if let Some(j) = r2.find('/') {
-                rest = &r2[j..];
-            }
-        }
-    }
-    out.push_str(rest);
-    out
 }
 
 fn exec_and_fold(t: &RecorderTrace, scratch: &Scratch, rec: &mut RunRecord, seed: u64, index: u64, prop: &str) -> Vec<Finding> {
